@@ -179,7 +179,8 @@ def known_findings():
                 continue
             kind, rest = line.split(':', 1)
             fields = dict(f.split('=', 1) for f in rest.split() if '=' in f and f.split('=')[0] in ('property', 'key'))
-            text = rest.strip()
+            import re as _re
+            text = _re.sub(r'^\s*(property=\S+\s+)?(key=\S+\s+)?', '', rest).strip()
             if kind == 'known':
                 known.append(dict(property=fields.get('property'), key=fields.get('key'), text=text))
             elif kind == 'fixed':
